@@ -15,6 +15,7 @@ import pymbolic.mapper as mapmod
 
 from ..core import check, short
 from ..gen import expr as G
+from ..mon import streams
 from ..mon.trace import HandlerTrace
 from ..mon.typedkeys import KF_TWINS, has_twins, refkeys, typed
 from ..ref import normal, refsem
@@ -142,10 +143,10 @@ def c_effects(ctx, case):
 
         def mk(fname, fn):
             def wrapped(*a, **kw):
-                calls.append((fname, tuple(a), tuple(sorted(kw.items()))))
+                calls.append((fname, tuple(a), tuple(kw.items())))    # keyword ORDER included
                 return fn(*a, **kw)
             return wrapped
-        for fname in ("f", "g"):
+        for fname in ("f", "g", "h"):
             if dict.__contains__(renv, fname):
                 dict.__setitem__(renv, fname, mk(fname, dict.__getitem__(renv, fname)))
         got = refsem.outcome(lambda: cls(renv)(e), UNK)
@@ -195,8 +196,30 @@ def _multiset(calls):
 def c_reuse(ctx, case):
     """One evaluator instance reused over a history of expressions (same context)."""
     exprs, env = case
-    for name, cls in (("plain", EvaluationMapper), ("cached", CachedEvaluationMapper)):
-        m = cls(env)
+
+    class Computed(dict):
+        """a context that computes its bindings on demand (it stays empty, hence falsy)"""
+        def __missing__(self, k):
+            return env[k]
+
+    for name, cls, how in (("plain", EvaluationMapper, "given"),
+                           ("cached", CachedEvaluationMapper, "given"),
+                           ("plain", EvaluationMapper, "filled-later"),
+                           ("cached", CachedEvaluationMapper, "filled-later"),
+                           ("plain", EvaluationMapper, "computed")):
+        if how == "given":
+            m = cls(env)
+        elif how == "filled-later":
+            # the caller's dict is still empty when the evaluator is built and is filled before
+            # the first evaluation: it is the caller's mapping that is the context
+            live = {}
+            m = cls(live)
+            live.update(env)
+            name += "-context-filled-after-construction"
+        else:
+            m = cls(Computed())
+            name += "-computed-context"
+        ctx.count("context:" + how)
         for i, e in enumerate(exprs):
             want, faults, _ = refsem.expected(e, env)
             got = refsem.outcome(lambda: m(e), UNK)
@@ -214,6 +237,56 @@ def c_reuse(ctx, case):
                          f"step {i} of history on one {name} evaluator: expr={e} "
                          f"env={_envs(env)} got={short(got)} want={short(want)}",
                          finding=twin_finding(exprs[:i + 1], rerun))
+
+
+X_ = p.Variable("x")
+
+
+def stream_rows(seed, n):
+    """short-lived expressions, each wrapping DIFFERENT children in common-subexpression nodes"""
+    import random
+    r = random.Random(seed)
+    gen = G.TypedGen(r, int_kinds=["cse", "cse", "sum", "prod", "if", "call", "min"])
+    for i in range(n):
+        gen.pool = {"int": [], "num": [], "bool": []}
+        k = r.random()
+        if k < 0.35:
+            yield p.Product((p.CommonSubexpression(p.Sum((X_, i))), 2))
+        elif k < 0.5:
+            yield p.CommonSubexpression(p.Sum((X_, p.Variable("y"), i)), "pre")
+        elif k < 0.7:
+            yield p.Sum((p.CommonSubexpression(gen.int(2)),
+                         p.CommonSubexpression(p.Product((i, gen.int(1))), "pfx")))
+        else:
+            yield gen.int(3)
+
+
+@check("C02.stream")
+def c_stream(ctx, case):
+    """ONE evaluator over a stream of temporaries: each row is dropped before the next is
+    built, so that node addresses are recycled while the evaluator lives on."""
+    seed, n, env = case
+    for name, cls in (("plain", EvaluationMapper), ("cached", CachedEvaluationMapper)):
+        m = cls(env)
+
+        def judge(i, e, name=name, cls=cls, m=m):
+            want, faults, _ = refsem.expected(e, env)
+            got = refsem.outcome(lambda: m(e), UNK)
+            ctx.case(None)
+            ctx.count("stream:" + name)
+            if not refsem.consistent(got, want, faults):
+                def rerun(w):
+                    tm = w(cls)(env)
+                    ok = True
+                    for j, e2 in enumerate(stream_rows(seed, i + 1)):
+                        w2, f2, _ = refsem.expected(e2, env)
+                        ok = refsem.consistent(refsem.outcome(lambda: tm(e2), UNK), w2, f2) and ok
+                    return ok
+                ctx.fail("C02.stream", case, f"{name}:{_sig(e, got, want)}",
+                         f"row {i} of a stream of temporaries through one {name} evaluator: "
+                         f"expr={e} env={_envs(env)} got={short(got)} want={short(want)}",
+                         finding=twin_finding(list(stream_rows(seed, i + 1)), rerun))
+        streams.each(ctx, stream_rows(seed, n), judge)
 
 
 def inject_fault(rng, e, kind):
@@ -327,6 +400,12 @@ def workload(ctx):
             if i < 1:
                 ctx.sample("reuse-history", [G.src(x) for x in exprs])
             ctx.run("C02.reuse", (exprs, env))
+        # 4b. the same with temporaries: rows built on the fly and dropped
+        for i in range(ctx.per_shard(ctx.pick(24, 400))):
+            env = G.base_env(rng.choice(BOX), rng.choice(BOX), rng.choice(IBOX),
+                             s=rng.choice([0, 1, 2]), t=rng.choice([True, False]))
+            ctx.case(("stream", i), True, n=0)
+            ctx.run("C02.stream", (rng.getrandbits(32), rng.randint(20, 120), env))
         # 5. containers at top level (plain evaluator), NaN nodes
         for i in range(ctx.per_shard(ctx.pick(200, 4000))):
             gen.pool = {"int": [], "num": [], "bool": []}
@@ -405,6 +484,8 @@ def workload(ctx):
     ctx.floor("outcome:unk", 50)
     ctx.floor("effect_reads", 500)
     ctx.floor("effect_calls", 100)
+    ctx.floor("stream:rows", 500)
+    ctx.floor("stream:row_address_reused", 100)
     for h in ("map_sum", "map_product", "map_floor_div", "map_remainder", "map_power",
               "map_left_shift", "map_right_shift", "map_bitwise_not", "map_bitwise_or",
               "map_bitwise_xor", "map_bitwise_and", "map_logical_not", "map_logical_or",
